@@ -107,7 +107,7 @@ def gen_cases(ck, limit):
                 add(sg.with_polls(m, (1 << len(m)) - 1), [fcid], [1 - fcid], "one_fault_all_interleavings",
                     {"fault": fault, "place": place})
     # (b) random: one or two faulty clients among 1..3 healthy ones, streams allowed, random polls
-    for i in range(800 if quick else 8000):
+    for i in range(1400 if quick else 8000):
         nh = rng.randrange(1, 4)
         nf = rng.choice([1, 1, 2])
         ids = list(range(nh + nf))
